@@ -2,6 +2,7 @@ package props
 
 import (
 	"fmt"
+	"time"
 
 	sifapp "github.com/Sifchain/sifnode/app"
 	"math/big"
@@ -113,6 +114,24 @@ func leaves(n anteNode) []anteNode {
 	return out
 }
 
+// c19Rate: a commission rate: 4.0% .. 6.0% in steps of 0.1%, or one of the ends of the scale: exactly 0, one unit of the
+// eighteenth decimal, 1%, one unit below 5%, 20% (the maximum rate of the messages built here).
+func c19Rate(rng *chain.Rng) sdk.Dec {
+	switch rng.Intn(12) {
+	case 0:
+		return sdk.ZeroDec()
+	case 1:
+		return sdk.NewDecWithPrec(1, 18)
+	case 2:
+		return sdk.NewDecWithPrec(1, 2)
+	case 3:
+		return sdk.NewDecWithPrec(5, 2).Sub(sdk.NewDecWithPrec(1, 18))
+	case 4:
+		return sdk.NewDecWithPrec(20, 2)
+	}
+	return sdk.NewDecWithPrec(int64(40+rng.Intn(21)), 3)
+}
+
 // C19 — fee floors and validator rules, however wrapped.
 func C19(c Ctx) *report.Report {
 	rep := report.New("C19", c.Seed, c.Tier)
@@ -177,7 +196,7 @@ func C19(c Ctx) *report.Report {
 		case 8: // create validator with commission around 5%
 			newValIdx++
 			pk := ed25519.GenPrivKeyFromSecret([]byte(fmt.Sprintf("c19cons%d", newValIdx))).PubKey()
-			rate := sdk.NewDecWithPrec(int64(40+rng.Intn(21)), 3) // 4.0% .. 6.0%
+			rate := c19Rate(rng)
 			m, err := stakingtypes.NewMsgCreateValidator(sdk.ValAddress(user.Addr), pk, sdk.NewCoin(bond, sdk.NewInt(1000000)), stakingtypes.NewDescription("n", "", "", "", ""),
 				stakingtypes.NewCommissionRates(rate, sdk.NewDecWithPrec(20, 2), sdk.NewDecWithPrec(1, 2)), sdk.OneInt())
 			if err != nil {
@@ -185,7 +204,7 @@ func C19(c Ctx) *report.Report {
 			}
 			return m, anteNode{URL: sdk.MsgTypeURL(m), Kind: 1, A: new(big.Int).Set(rate.BigInt())}
 		case 9: // edit validator (the signer user is validator 5's operator in half of the cases below)
-			rate := sdk.NewDecWithPrec(int64(40+rng.Intn(21)), 3)
+			rate := c19Rate(rng)
 			var rp *sdk.Dec
 			has := rng.Intn(4) != 0
 			if has {
@@ -239,14 +258,16 @@ func C19(c Ctx) *report.Report {
 			return m, anteNode{URL: sdk.MsgTypeURL(m), Kind: 4, Found: true, A: vt, B: x, Same: same}
 		}
 	}
-	var wrap func(depth int, m sdk.Msg, n anteNode) (sdk.Msg, anteNode)
-	wrap = func(depth int, m sdk.Msg, n anteNode) (sdk.Msg, anteNode) {
+	var wrapAs func(who chain.Account, depth int, m sdk.Msg, n anteNode) (sdk.Msg, anteNode)
+	wrapAs = func(who chain.Account, depth int, m sdk.Msg, n anteNode) (sdk.Msg, anteNode) {
 		if depth == 0 {
 			return m, n
 		}
-		ex := authz.NewMsgExec(user.Addr, []sdk.Msg{m})
-		return wrap(depth-1, &ex, anteNode{Exec: true, Inner: []anteNode{n}})
+		ex := authz.NewMsgExec(who.Addr, []sdk.Msg{m})
+		return wrapAs(who, depth-1, &ex, anteNode{Exec: true, Inner: []anteNode{n}})
 	}
+	wrap := func(depth int, m sdk.Msg, n anteNode) (sdk.Msg, anteNode) { return wrapAs(user, depth, m, n) }
+	var ownOperators []chain.Account
 	// user also delegates to the small validator 5 so that redelegations have a source
 	// (validator 5 holds 2% of the stake; 4.4% more keeps it under the 6.6% limit)
 	d0 := stakingtypes.NewMsgDelegate(user.Addr, e.ValAddr(5), sdk.NewCoin(bond, sdk.NewIntFromBigInt(new(big.Int).Div(new(big.Int).Mul(total(), big.NewInt(44)), big.NewInt(1000)))))
@@ -294,6 +315,47 @@ func C19(c Ctx) *report.Report {
 			}
 			signer = op
 			rep.Count("tx.create-validator-then-delegate-to-it")
+			switch rng.Intn(3) {
+			case 1:
+				// the creation alone, by an operator that has no validator yet (so that it is executed when it is let
+				// through), commission from the whole scale
+				rate = c19Rate(rng)
+				cv, err = stakingtypes.NewMsgCreateValidator(sdk.ValAddress(op.Addr), pk, sdk.NewCoin(bond, sdk.NewInt(1000000)), stakingtypes.NewDescription("n", "", "", "", ""),
+					stakingtypes.NewCommissionRates(rate, sdk.NewDecWithPrec(20, 2), sdk.NewDecWithPrec(20, 2)), sdk.OneInt())
+				if err != nil {
+					panic(err)
+				}
+				n1 = anteNode{URL: sdk.MsgTypeURL(cv), Kind: 1, A: new(big.Int).Set(rate.BigInt())}
+				var m sdk.Msg = cv
+				m, n1 = wrapAs(op, rng.Intn(3), m, n1)
+				msgs, nodes = []sdk.Msg{m}, []anteNode{n1}
+				ownOperators = append(ownOperators, op)
+				rep.Count("tx.create-validator-fresh-operator")
+			case 2:
+				// an operator created above edits its commission, more than 24 h later (the staking module allows one
+				// change a day, of at most the validator's maximum change rate: 20% here)
+				if len(ownOperators) > 0 {
+					op = ownOperators[rng.Intn(len(ownOperators))]
+					if _, found := e.App.StakingKeeper.GetValidator(e.Ctx(), sdk.ValAddress(op.Addr)); found {
+						step := e.BlockStep
+						e.BlockStep = 25 * time.Hour
+						e.NextBlock()
+						e.BlockStep = step
+						rate = c19Rate(rng)
+						has := rng.Intn(5) != 0
+						var rp *sdk.Dec
+						if has {
+							rp = &rate
+						}
+						var m sdk.Msg = stakingtypes.NewMsgEditValidator(sdk.ValAddress(op.Addr), stakingtypes.NewDescription("e", "", "", "", ""), rp, nil)
+						nd := anteNode{URL: sdk.MsgTypeURL(m), Kind: 2, Has: has, A: new(big.Int).Set(rate.BigInt())}
+						m, nd = wrapAs(op, rng.Intn(3), m, nd)
+						msgs, nodes = []sdk.Msg{m}, []anteNode{nd}
+						signer = op
+						rep.Count("tx.edit-validator-own-operator")
+					}
+				}
+			}
 		}
 		// fee around the floors
 		floor := new(big.Int)
@@ -389,7 +451,19 @@ func C19(c Ctx) *report.Report {
 			}
 		}
 		// ---- case for the model (ante decision only) ----
-		if executed || rejectedByRules {
+		// a transaction that failed in the execution of one of its messages has passed the whole ante chain: for the two
+		// decorators it counts as accepted
+		passedAnte := executed || (res.Code != 0 && strings.Contains(res.Log, "failed to execute message"))
+		if passedAnte {
+			for _, nd := range nodes {
+				for _, lf := range leaves(nd) {
+					if (lf.Kind == 1 || (lf.Kind == 2 && lf.Has)) && lf.A.Cmp(new(big.Int).Mul(bigE(16), big.NewInt(5))) < 0 {
+						rep.Count("commission-below-5pct-past-the-ante-chain")
+					}
+				}
+			}
+		}
+		if passedAnte || rejectedByRules {
 			en := &env.Enc{}
 			en.I(int64(id)).Z(submitFee).Z(fee).Z(tot).Len(len(nodes))
 			for _, nd := range nodes {
@@ -405,7 +479,7 @@ func C19(c Ctx) *report.Report {
 	rep.Evaluations = id
 	rep.DistinctNontrivial = distinct(cases)
 	rep.ImplTraces = id
-	rep.Rule = "one case = one signed transaction delivered to the real app (real ante chain and message execution): 1-3 messages drawn from bank send, swap, add/remove liquidity, user claim, IBC transfer, gov proposal, create/edit validator (commission 4.0-6.0%), delegate / redelegate around the 6.6% boundary, each nested 0-3 deep in authz MsgExec with probability 1/3, fee = floor-1 / floor / 0.01 / 0.1 / 1 base unit / floor+1 rowan; non-trivial = distinct (messages, fee, stake) case that was executed or rejected by the two decorators"
+	rep.Rule = "one case = one signed transaction delivered to the real app (real ante chain and message execution): 1-3 messages drawn from bank send, swap, add/remove liquidity, user claim, IBC transfer, gov proposal, create/edit validator (commission 4.0-6.0%, or exactly 0, 1e-18, 1%, 5%-1e-18, 20%), delegate / redelegate around the 6.6% boundary, each nested 0-3 deep in authz MsgExec with probability 1/3, fee = floor-1 / floor / 0.01 / 0.1 / 1 base unit / floor+1 rowan; non-trivial = distinct (messages, fee, stake) case that was executed or rejected by the two decorators"
 	var tbl []string
 	for _, u := range urls {
 		tbl = append(tbl, fmt.Sprintf("(%d%%Z, \"%s\"%%string)", urlID[u], u))
